@@ -1,6 +1,7 @@
 """C05 evolved PDFs conserve total momentum and valence numbers (and polarised axial charges)."""
 
 import math
+import shutil
 
 import numpy as np
 
@@ -13,13 +14,16 @@ ENGINE = "R"
 TECHNIQUE = "generated smooth toy PDFs evolved with freshly solved 30-50 point EKOs; oracle = conservation of independently integrated moments"
 RULE = (
     "Generated cases: log-lin grid of 30-50 points (x_min 1e-5..1e-4), degree 3-4, QCD order 1-3, unpolarised or "
-    "polarised, fixed-flavour or one-threshold path, evolution up or down by a factor 2-10 in scale, smooth toy PDFs "
+    "polarised, fixed-flavour or one-threshold path (charm, bottom or top matching scale, upward or downward), evolution up or down by a factor 2-10 in scale, smooth toy PDFs "
     "x f = A x^a (1-x)^b (1 + c x) per flavour with drawn parameters (gluon and >=2 quark flavours non-zero, valence "
-    "exponents >= 0.6 so that the truncated small-x region stays below the tolerance). Input and output (operator "
-    "contracted with f on the grid) are integrated with the same independent rule (cubic spline of x f in ln x, "
+    "exponents >= 0.6 so that the truncated small-x region stays below the tolerance). The operator is applied with "
+    "ekobox.apply.apply_grids to three replicas at once (the PDF, one with halved quark-antiquark differences, one with a "
+    "1.5 times larger gluon), which must agree with the plain tensor contraction of each replica (rtol 1e-10). Input and output are integrated with the same independent rule (cubic spline of x f in ln x, "
     "integrated exactly per interval): total momentum sum_i int x f_i (unpolarised) and every valence number int (q - "
     "qbar) must be unchanged within 1% relative (absolute 1e-3 of the largest valence for the vanishing ones); polarised: "
-    "first moments of T3 and T8 unchanged. Non-trivial = |ln(mu^2/mu0^2)| >= ln 4 with gluon and >=2 quark flavours "
+    "first moments of T3 and T8 unchanged. Four cases in five are cheap 'coarse-only' ones (20-point grid, LO/NLO, 2 "
+    "iterations) that cover the path shapes and only assert conservation within 5% (correct code: <= 1.3%), i.e. they "
+    "detect plumbing-size errors. Non-trivial = |ln(mu^2/mu0^2)| >= ln 4 with gluon and >=2 quark flavours "
     "non-zero; distinct by (order, polarised, path shape, direction, grid size)."
 )
 ASSUMPTIONS = [
@@ -40,9 +44,12 @@ IDX[21] = 7
 IDX[22] = 0
 
 
+COARSE_TOL = 5e-2  # 20-point grids: correct code changes the conserved quantities by <= 1.3e-2 (42 measured cases, mostly < 4e-3)
+
+
 def budget(tier):
     if tier == "quick":
-        return dict(max_examples=4, shards=4, wall_s=170, shrink_s=0)
+        return dict(max_examples=16, shards=16, wall_s=200, shrink_s=0)
     return dict(max_examples=48, shards=8, wall_s=3000, shrink_s=0)
 
 
@@ -68,7 +75,7 @@ def strategy(tier):
                 mu1 = mu0 * factor
                 nff = nf0 + 1
             else:
-                nf0 = max(nf0, 4)
+                nf0 = draw(st.sampled_from((4, 5, 6)))
                 w = walls[nf0 - 4]
                 mu0 = w * math.sqrt(factor) * draw(st.floats(0.9, 1.1))
                 mu1 = mu0 / factor
@@ -104,7 +111,22 @@ def strategy(tier):
         pdf["21"] = {"sea": [draw(st.floats(0.5, 3.0)), draw(st.floats(lo_a, 0.2 if not pol else 1.0)), draw(st.floats(4.0, 7.0)), draw(st.floats(0.0, 2.0))]}
         return {"card": card, "pdf": pdf}
 
-    return build()
+    def coarsen(case):
+        """Cheap variant: 20 points, LO/NLO, few iterations; only plumbing-size violations (COARSE_TOL) are asserted."""
+        case = dict(case, coarse=True)
+        card = dict(case["card"])
+        xs = card["xgrid"]
+        xmin = xs[0]
+        card["xgrid"] = [float(x) for x in sorted(set(np.geomspace(xmin, 0.1, 12).tolist() + np.linspace(0.1, 1.0, 9).tolist()))]
+        card["order"] = [min(card["order"][0], 2), 0]
+        card["iters"] = 2
+        card["cores"] = 1
+        case["card"] = card
+        return case
+
+    # one full case in five carries the stated 1% claim; the cheap ones cover the path shapes (all three matching scales,
+    # both directions, fixed flavour number) and the application through ekobox.apply with several replicas
+    return st.tuples(st.integers(0, 4), build()).map(lambda t: t[1] if t[0] == 0 else coarsen(t[1]))
 
 
 def shape(p, x):
@@ -170,33 +192,66 @@ def check_case(case):
     res.key = [c["order"], c["pol"], shape_, direction, len(xs), c["method"]]
     lnr = abs(math.log(c["mugrid"][0][0] ** 2 / c["init"][0] ** 2))
     res.nontrivial = bool(lnr >= math.log(4.0) - 1e-9 and len([k for k in case["pdf"] if k != "21"]) >= 2)
-    try:
-        ops = ru.solve(card)
-    except (NotImplementedError, ValueError) as e:
-        return CaseResult(discarded=f"refused:{type(e).__name__}")
-    except Exception as e:  # noqa: BLE001 - crashes are C04's verdict
-        return CaseResult(discarded=exc_bucket("crash(decided by C04)", e))
-    (key, (op, _err)), = ops.items()
+    coarse = bool(case.get("coarse"))
+    rel_tol = COARSE_TOL if coarse else 1e-2
+    if coarse:
+        res.classes.append("grid=coarse-only")
     fin = input_grid(case["pdf"], xs)
-    fout = np.einsum("ajbk,bk->aj", op, fin)
+    # three smooth replicas obeying the same conservation laws: the generated PDF, one with the quark-antiquark
+    # differences halved and one with a 1.5 times larger gluon
+    rep2, rep3 = fin.copy(), fin.copy()
+    for q in QUARKS:
+        d = fin[IDX[q]] - fin[IDX[-q]]
+        rep2[IDX[q]] = fin[IDX[-q]] + 0.5 * d
+    rep3[IDX[21]] = 1.5 * fin[IDX[21]]
+    reps = np.array([fin, rep2, rep3])
+    d = ru.fresh_dir("vf-c05-")
+    try:
+        try:
+            ru.solve_to(card, d / "o.tar")
+        except (NotImplementedError, ValueError) as e:
+            return CaseResult(discarded=f"refused:{type(e).__name__}")
+        except Exception as e:  # noqa: BLE001 - crashes are C04's verdict
+            return CaseResult(discarded=exc_bucket("crash(decided by C04)", e))
+        ops = ru.load_all(d / "o.tar")
+        from eko.io.struct import EKO
+        from ekobox import apply as eapply
+
+        with EKO.read(d / "o.tar") as ek:
+            applied, _ = eapply.apply_grids(ek, reps.copy())
+    finally:
+        shutil.rmtree(d, ignore_errors=True)
+    (key, (op, _err)), = ops.items()
+    (akey, aval), = applied.items()
+    aval = np.asarray(aval)
+    outs = np.einsum("ajbk,rbk->raj", op, reps)
+    if aval.shape != outs.shape or not np.allclose(aval, outs, rtol=1e-10, atol=1e-12 * float(np.max(np.abs(outs)))):
+        res.fail(f"{ID}/apply-grids/differs-from-contraction", f"ekobox.apply.apply_grids on 3 replicas: shape {aval.shape} vs {outs.shape}"
+                 + ("" if aval.shape != outs.shape else f", max abs deviation {float(np.max(np.abs(aval - outs))):.3e}"))
+        aval = outs
+    for r in range(3):
+        check_moments(res, c, xs, reps[r], aval[r], rel_tol, shape_, r)
+    return res
+
+
+def check_moments(res, c, xs, fin, fout, rel_tol, shape_, r):
     m0 = moments(xs, fin, c["pol"])
     m1 = moments(xs, fout, c["pol"])
     vmax = max([abs(v) for k, v in m0.items() if k.startswith("valence")] + [1e-300])
     for k in m0:
         a, b = m0[k], m1[k]
         if k.startswith("valence"):
-            tol = 1e-2 * abs(a) + 1e-3 * vmax
+            tol = rel_tol * abs(a) + 0.1 * rel_tol * vmax
             grp = "valence"
         elif k == "momentum":
-            tol = 1e-2 * abs(a)
+            tol = rel_tol * abs(a)
             grp = "momentum"
         else:
-            tol = 1e-2 * max(abs(m0["T3"]), abs(m0["T8"]))
+            tol = rel_tol * max(abs(m0["T3"]), abs(m0["T8"]))
             grp = "axial"
         if not abs(a - b) <= tol:
             res.fail(
                 f"{ID}/{grp}/order={c['order'][0]}/path={shape_}/pol={c['pol']}",
-                f"{k}: input {a:.6g} -> evolved {b:.6g} (change {abs(a - b):.3e}, allowed {tol:.3e}); "
+                f"replica {r}: {k}: input {a:.6g} -> evolved {b:.6g} (change {abs(a - b):.3e}, allowed {tol:.3e}); "
                 f"{c['init']} -> {c['mugrid'][0]} method={c['method']}",
             )
-    return res
